@@ -3,17 +3,20 @@
 using namespace model;
 
 static const char *TRSM[] = {"mzd_trsm_upper_left", "mzd_trsm_lower_left", "mzd_trsm_upper_right", "mzd_trsm_lower_right",
-                             "_mzd_trsm_upper_left", "_mzd_trsm_lower_left", "_mzd_trsm_upper_right", "_mzd_trsm_lower_right"};
+                             "_mzd_trsm_upper_left", "_mzd_trsm_lower_left", "_mzd_trsm_upper_right", "_mzd_trsm_lower_right",
+                             "_mzd_trsm_upper_left_russian", "_mzd_trsm_lower_left_russian"};
 
 static void gen_trsm(const GenCtx &ctx, Case &c, int viewpct) {
-  std::string r = TRSM[g::wpick<int>({{3, 0}, {3, 1}, {3, 2}, {3, 3}, {1, 4}, {1, 5}, {1, 6}, {1, 7}})];
+  std::string r = TRSM[g::wpick<int>({{3, 0}, {3, 1}, {3, 2}, {3, 3}, {1, 4}, {1, 5}, {1, 6}, {1, 7}, {1, 8}, {1, 9}})];
   c.sets("op", r);
   int capv = g::cap(ctx, 20);
   int bs = vf_cfg_mul_blocksize();
   std::vector<int> thr = {64, 128, 192, bs, 2 * bs};
   int n = g::dim(capv, thr);
   int w = g::wpick<int>({{4, g::dim(std::min(capv, 400), {54, 64, 128})}, {1, 1}, {1, g::pick<int>({53, 54, 63, 64, 65, 127, 128, 129})}});
-  c.set("n", n).set("w", w).set("cutoff", g::cutoff());
+  c.set("n", n).set("w", w);
+  if (r.find("russian") != std::string::npos) c.set("k", g::rng(0, 8));  // table parameter of the Four-Russians base case
+  else c.set("cutoff", g::cutoff());
   g::tri(c, "T");
   g::place(c, "T", viewpct);
   g::pat(c, "B", n, w, false);
@@ -39,6 +42,8 @@ static Verdict exec_trsm(const Case &c) {
   else if (r == "_mzd_trsm_lower_left") _mzd_trsm_lower_left(ot.M, ob.M, cutoff);
   else if (r == "_mzd_trsm_upper_right") _mzd_trsm_upper_right(ot.M, ob.M, cutoff);
   else if (r == "_mzd_trsm_lower_right") _mzd_trsm_lower_right(ot.M, ob.M, cutoff);
+  else if (r == "_mzd_trsm_upper_left_russian") _mzd_trsm_upper_left_russian(ot.M, ob.M, (int)c.i("k", 0));
+  else if (r == "_mzd_trsm_lower_left_russian") _mzd_trsm_lower_left_russian(ot.M, ob.M, (int)c.i("k", 0));
   else throw std::runtime_error("bad trsm");
   Mat X = ob.read();
   Mat back = left ? mul(Ttri, X) : mul(X, Ttri);
@@ -67,6 +72,8 @@ static RegisterOp r_t4({TRSM[4], "C04", 0, nullptr, exec_trsm, true});
 static RegisterOp r_t5({TRSM[5], "C04", 0, nullptr, exec_trsm, true});
 static RegisterOp r_t6({TRSM[6], "C04", 0, nullptr, exec_trsm, true});
 static RegisterOp r_t7({TRSM[7], "C04", 0, nullptr, exec_trsm, true});
+static RegisterOp r_t8({TRSM[8], "C04", 0, nullptr, exec_trsm, true});
+static RegisterOp r_t9({TRSM[9], "C04", 0, nullptr, exec_trsm, true});
 
 static Case gen_C04(const GenCtx &ctx) { return gen_from_ops("C04", ctx, 0); }
 static RegisterProp p_C04({"C04",
